@@ -470,9 +470,11 @@ var zeroMarker ssa.Value = &ssa.Const{}
 
 // ---------- branch recognition ----------
 
-// nilTest recognises `If (x != nil)` / `If (x == nil)` at the end of block b, returning x and the successor
-// taken when x is nil and when it is non-nil.
-func nilTest(b *ssa.BasicBlock) (x ssa.Value, nilSucc, nonNilSucc *ssa.BasicBlock, ok bool) {
+// effCond looks through boolean negation and through the phi that a stored short-circuit expression
+// (`t := a && f(x); if t {`) leaves behind: it returns the innermost condition value c and the successors taken
+// when c is true / false. tExact says "control reaches tS only if c is true", fExact likewise; a phi with constant
+// false on the other edges keeps tExact, one with constant true keeps fExact.
+func effCond(b *ssa.BasicBlock) (c ssa.Value, tS, fS *ssa.BasicBlock, tExact, fExact, ok bool) {
 	if len(b.Instrs) == 0 {
 		return
 	}
@@ -480,7 +482,51 @@ func nilTest(b *ssa.BasicBlock) (x ssa.Value, nilSucc, nonNilSucc *ssa.BasicBloc
 	if !is {
 		return
 	}
-	bo, is := iff.Cond.(*ssa.BinOp)
+	c, tS, fS, tExact, fExact, ok = iff.Cond, b.Succs[0], b.Succs[1], true, true, true
+	for i := 0; i < 8; i++ {
+		switch x := c.(type) {
+		case *ssa.UnOp:
+			if x.Op != token.NOT {
+				return
+			}
+			c, tS, fS, tExact, fExact = x.X, fS, tS, fExact, tExact
+		case *ssa.Phi:
+			var leaf ssa.Value
+			nT, nF, nLeaf := 0, 0, 0
+			for _, e := range x.Edges {
+				if cb, isC := constBool(e); isC {
+					if cb {
+						nT++
+					} else {
+						nF++
+					}
+				} else if leaf == nil || e == leaf {
+					leaf = e
+					nLeaf++
+				} else {
+					nLeaf = 99
+				}
+			}
+			if leaf == nil || nLeaf == 99 {
+				return
+			}
+			// phi true with no constant-true edge ⇒ leaf true; phi false with no constant-false edge ⇒ leaf false
+			c, tExact, fExact = leaf, tExact && nT == 0, fExact && nF == 0
+		default:
+			return
+		}
+	}
+	return
+}
+
+// nilTest2 recognises a comparison of x with nil behind effCond; nilExact: nilSucc is only reached with x == nil,
+// nonNilExact: nonNilSucc is only reached with x != nil.
+func nilTest2(b *ssa.BasicBlock) (x ssa.Value, nilSucc, nonNilSucc *ssa.BasicBlock, nilExact, nonNilExact, ok bool) {
+	c, tS, fS, tE, fE, is := effCond(b)
+	if !is {
+		return
+	}
+	bo, is := c.(*ssa.BinOp)
 	if !is || (bo.Op != token.NEQ && bo.Op != token.EQL) {
 		return
 	}
@@ -493,25 +539,34 @@ func nilTest(b *ssa.BasicBlock) (x ssa.Value, nilSucc, nonNilSucc *ssa.BasicBloc
 		return
 	}
 	if bo.Op == token.NEQ {
-		return v, b.Succs[1], b.Succs[0], true
+		return v, fS, tS, fE, tE, true
 	}
-	return v, b.Succs[0], b.Succs[1], true
+	return v, tS, fS, tE, fE, true
 }
 
-// sentinelTest recognises `If errors.Is(x, *G)` and `If x == *G` / `x != *G` for a package-level variable G.
-func sentinelTest(b *ssa.BasicBlock) (x ssa.Value, sentinel string, isSucc, notSucc *ssa.BasicBlock, ok bool) {
-	if len(b.Instrs) == 0 {
-		return
+// nilTest recognises `If (x != nil)` / `If (x == nil)` at the end of block b, returning x and the successor
+// taken when x is nil and when it is non-nil (both exact).
+func nilTest(b *ssa.BasicBlock) (x ssa.Value, nilSucc, nonNilSucc *ssa.BasicBlock, ok bool) {
+	v, n, nn, ne, nne, is := nilTest2(b)
+	if !is || !ne || !nne {
+		return nil, nil, nil, false
 	}
-	iff, is := b.Instrs[len(b.Instrs)-1].(*ssa.If)
+	return v, n, nn, true
+}
+
+// sentinelTest recognises `If errors.Is(x, *G)` and `If x == *G` / `x != *G` for a package-level variable G
+// (behind effCond). isSucc is only reached when x is the sentinel; notSucc is the other successor (on which the
+// sentinel is excluded only when the condition was not combined with another one).
+func sentinelTest(b *ssa.BasicBlock) (x ssa.Value, sentinel string, isSucc, notSucc *ssa.BasicBlock, ok bool) {
+	cnd, tS, fS, tE, fE, is := effCond(b)
 	if !is {
 		return
 	}
-	switch c := iff.Cond.(type) {
+	switch c := cnd.(type) {
 	case *ssa.Call:
-		if CalleeKey(c) == "errors.Is" && len(c.Call.Args) == 2 {
+		if CalleeKey(c) == "errors.Is" && len(c.Call.Args) == 2 && tE {
 			if g := globalLoad(c.Call.Args[1]); g != "" {
-				return c.Call.Args[0], g, b.Succs[0], b.Succs[1], true
+				return c.Call.Args[0], g, tS, fS, true
 			}
 		}
 	case *ssa.BinOp:
@@ -528,13 +583,29 @@ func sentinelTest(b *ssa.BasicBlock) (x ssa.Value, sentinel string, isSucc, notS
 			if !isErrorType(v.Type()) {
 				return
 			}
-			if c.Op == token.EQL {
-				return v, g, b.Succs[0], b.Succs[1], true
+			if c.Op == token.EQL && tE {
+				return v, g, tS, fS, true
 			}
-			return v, g, b.Succs[1], b.Succs[0], true
+			if c.Op == token.NEQ && fE {
+				return v, g, fS, tS, true
+			}
 		}
 	}
 	return
+}
+
+// predicateTest recognises `If helper(x)` (behind effCond) for a one-argument static helper; trueSucc is only
+// reached when the helper returned true.
+func predicateTest(b *ssa.BasicBlock) (call *ssa.Call, trueSucc, falseSucc *ssa.BasicBlock, ok bool) {
+	cnd, tS, fS, tE, _, is := effCond(b)
+	if !is || !tE {
+		return
+	}
+	c, isCall := cnd.(*ssa.Call)
+	if !isCall || len(c.Call.Args) != 1 || c.Call.StaticCallee() == nil {
+		return
+	}
+	return c, tS, fS, true
 }
 
 // globalLoad: v is a load of a package-level variable → "pkg.Name".
@@ -671,4 +742,78 @@ func argsOf(c ssa.CallInstruction) []ssa.Value {
 		}
 	}
 	return cc.Args
+}
+
+// indexIn: position of ins in its block (-1 when absent).
+func indexIn(ins ssa.Instruction) int {
+	for i, x := range ins.Block().Instrs {
+		if x == ins {
+			return i
+		}
+	}
+	return -1
+}
+
+// siteOf builds the Site of an instruction.
+func siteOf(ins ssa.Instruction) Site {
+	return Site{Fn: ins.Parent(), Block: ins.Block(), Idx: indexIn(ins), Instr: ins}
+}
+
+// valueDependsOn: does v (through arithmetic, conversions, call arguments, extracts, phis and single-store cells)
+// depend on a value satisfying pred? Bounded DFS over operands.
+func valueDependsOn(v ssa.Value, pred func(ssa.Value) bool) bool {
+	seen := map[ssa.Value]bool{}
+	var walk func(v ssa.Value, depth int) bool
+	walk = func(v ssa.Value, depth int) bool {
+		if v == nil || seen[v] || depth > 12 {
+			return false
+		}
+		seen[v] = true
+		if pred(v) {
+			return true
+		}
+		switch x := v.(type) {
+		case *ssa.UnOp:
+			if x.Op == token.MUL && isCell(x.X) {
+				vals, _ := reachingStores(x)
+				for _, sv := range vals {
+					if walk(sv, depth+1) {
+						return true
+					}
+				}
+				return false
+			}
+		}
+		if al, isAlloc := v.(*ssa.Alloc); isAlloc {
+			// a local array / struct (varargs packaging, composite literal): what was stored into its elements
+			for _, ref := range *al.Referrers() {
+				var addr ssa.Value
+				switch a := ref.(type) {
+				case *ssa.IndexAddr:
+					addr = a
+				case *ssa.FieldAddr:
+					addr = a
+				}
+				if addr == nil {
+					continue
+				}
+				for _, rr := range *addr.Referrers() {
+					if st, isSt := rr.(*ssa.Store); isSt && st.Addr == addr && walk(st.Val, depth+1) {
+						return true
+					}
+				}
+			}
+		}
+		ins, ok := v.(ssa.Instruction)
+		if !ok {
+			return false
+		}
+		for _, op := range ins.Operands(nil) {
+			if *op != nil && walk(*op, depth+1) {
+				return true
+			}
+		}
+		return false
+	}
+	return walk(v, 0)
 }
